@@ -315,4 +315,43 @@ theorem FInv.atRest {w : List Link} (I : FInv w) (hq : hsQuiescent w = true) :
     · exact sA.2 (fun c hc => by rw [(sA.1 c hc x (by simp)).1]; exact hd)
     · exact sB.2 (fun c hc => by rw [(sB.1 c hc x (by simp)).1]; exact hd)
 
+
+/-! ### ready events -/
+
+theorem rRun_w_aux (o : Ordering) (ops : List ROp) : ∀ s : RState,
+    (ops.foldl (rStep o) s).w = (rProj ops).foldl (fStep o) s.w := by
+  induction ops with
+  | nil => intro s; rfl
+  | cons x rest ih =>
+    intro s
+    simp only [List.foldl_cons]
+    rw [ih]
+    cases x with
+    | f op => rfl
+    | readyA a => simp only [rStep, rProj]; split <;> rfl
+    | readyB b => simp only [rStep, rProj]; split <;> rfl
+
+/-- the ready events do not change the world: it is the `fRun` of the other ops -/
+theorem rRun_w (o : Ordering) (ops : List ROp) : (rRun o ops).w = fRun o (rProj ops) :=
+  rRun_w_aux o ops {}
+
+/-- the invariant at every instant of every run -/
+theorem fRun_inv (o : Ordering) (ho : o ≠ .eq) (ops : List FOp)
+    (hA : ((fDials ops).map (·.idA)).Nodup) (hB : ((fDials ops).map (·.idB)).Nodup) : FInv (fRun o ops) := by
+  have I0 : FInv ([] : List Link) := by
+    refine ⟨⟨?_, ?_⟩, ⟨?_, ?_⟩⟩ <;> simp [activeA, activeB]
+  exact fRun_aux o ho ops [] I0 (by simpa using hA) (by simpa using hB)
+
+/-- ids of the links of a run are distinct (they are the dialled connections) -/
+theorem fRun_conns (o : Ordering) (ops : List FOp) : (fRun o ops).map (·.c) = fDials ops := by
+  unfold fRun
+  suffices h : ∀ w : List Link, (ops.foldl (fStep o) w).map (·.c) = w.map (·.c) ++ fDials ops by
+    simpa using h []
+  induction ops with
+  | nil => intro w; simp [fDials]
+  | cons x rest ih =>
+    intro w
+    simp only [List.foldl_cons]
+    rw [ih, fStep_conns, fDials_cons x rest, List.append_assoc]
+
 end Election
